@@ -555,11 +555,14 @@ class POAllocM(Model):
         return f"n{self.n}|{'+'.join(sorted(k))}|used{len(self.ord)}"
 
     def apply(self, c):
-        new = list(self.ord)
+        # identifiers designated on the state at the start of the cycle (free and free_idx conflict in the real component, but the
+        # model also defines the result should both ever run: exactly the designated identifiers are removed)
+        gone = set()
         if "free" in c:
-            new.remove(c["free"][0]["ident"])
-        if "free_idx" in c:
-            del new[c["free_idx"][0]["idx"]]
+            gone.add(c["free"][0]["ident"])
+        if "free_idx" in c and c["free_idx"][0]["idx"] < len(self.ord):
+            gone.add(self.ord[c["free_idx"][0]["idx"]])
+        new = [x for x in self.ord if x not in gone]
         if "alloc" in c:
             new.append(c["alloc"][1]["ident"])
         if "clear" in c:
